@@ -104,6 +104,31 @@ func (j *jsonBuilder) mergeEntities(left *astjson.Value, rightResult resultData)
 	return left, nil
 }
 
+// mergeRequiredFields merges the result of a required fields call into the entities it was made for.
+// When representations of other entity types were left out of the call, its results belong to the
+// positions recorded in the index map; otherwise every entity takes part and mergeWithPath applies.
+func (j *jsonBuilder) mergeRequiredFields(base *astjson.Value, result resultData) error {
+	if result.entityIndexMap == nil || len(result.responsePath) != 2 {
+		return j.mergeWithPath(base, result.response, result.responsePath)
+	}
+
+	resolvedValues := result.response.GetArray(resolveResponsePath)
+	if len(resolvedValues) != len(result.entityIndexMap) {
+		return fmt.Errorf("length of values doesn't match the number of entities the required fields were requested for, expected %d, got %d", len(result.entityIndexMap), len(resolvedValues))
+	}
+
+	entities := base.GetArray(result.responsePath[0].FieldName.String())
+	elementName := result.responsePath[1].FieldName.String()
+	for i, index := range result.entityIndexMap {
+		if index >= len(entities) || entities[index] == nil || entities[index].Type() != astjson.TypeObject {
+			continue
+		}
+		entities[index].Set(j.jsonArena, elementName, resolvedValues[i].Get(elementName))
+	}
+
+	return nil
+}
+
 // mergeWithPath merges a JSON value with a resolved value by its path.
 func (j *jsonBuilder) mergeWithPath(base *astjson.Value, resolved *astjson.Value, path ast.Path) error {
 	if len(path) == 0 {
